@@ -129,6 +129,17 @@ def check_stack(rec, cands, xfs, nc, rng, n_random=200, flavour=('list', 'int'))
             return False            # exact half-integers: a constant mean-rank vector scores exactly 0
         return np.sqrt(v @ v) < 1e-9
     degenerate = zero_pool(rec['all']) or any(zero_pool(f['stat']) for f in rec['loo'])
+    if api == 'cv' and not degenerate and m != 'rho-a':
+        # the upper prediction is cut to the test conditions: it may vanish (be constant) there
+        kp_ = k_pool(rec['all'])
+        full_ = np.full(L, np.nan)
+        full_[present] = kp_
+        for f in rec['loo']:
+            pos = np.array([tok_pos(t, nc) for t in f['tt'] if t != S.NAN], dtype=int)
+            v = full_[pos][~np.isnan(full_[pos])]
+            if m in ('corr', 'corr_cov'):
+                v = v - v.mean()
+            degenerate = degenerate or np.sqrt(v @ v) < 1e-9
     stats['degenerate'] = bool(degenerate)
     # ---- the pooled RDM is Pool(method, rows): Normalise, then NaN-aware mean (rank BEFORE mean)
     pv = pooled.get_vectors()[0]
@@ -210,7 +221,10 @@ def check_stack(rec, cands, xfs, nc, rng, n_random=200, flavour=('list', 'int'))
         if lo > up + TOL:
             where = '' if api == 'boot' else \
                 ('cv_noise_ceiling/pattern-subset/' if any(len(f['tt']) < L for f in rec['loo']) else 'cv_noise_ceiling/all-conditions/')
-            out.append((f'C07/{d_or("c")}/{where}lower-above-upper/{m}', 'lower noise ceiling exceeds the upper one',
+            # cross-validation on a subset of the conditions: one mechanism (pool on all conditions, then cut) for
+            # every method, hence one key; everywhere else the method is part of the class
+            key = f'C07/c/{where}lower-above-upper' if 'pattern-subset' in where else f'C07/{d_or("c")}/{where}lower-above-upper/{m}'
+            out.append((key, 'lower noise ceiling exceeds the upper one',
                         _case(rec, lower=lo, upper=up, api=api, fold_case=rec.get('case'))))
     # ---- e: invariance to per-RDM positive rescaling (cosine type) / affine maps (correlation type)
     for t in xfs:
